@@ -920,7 +920,7 @@ def main(chk: Check, replay: dict | None = None) -> int:
     for c in load_corpus("C01"):
         i = c["input"]
         jobs.append((i["doc"], tuple(i["layout"]), i.get("naming"), "corpus"))
-    n_clean = 150 if chk.thorough else 34
+    n_clean = 150 if chk.thorough else 30
     n_cyc = 60 if chk.thorough else 10
     for k in range(n_clean):
         import random as _random
